@@ -14,6 +14,11 @@ func (p *Parser) parseDocElement() (INode, *Error) {
 		n.tpl = p.template
 		n.afterBlockTag = left != nil && left.Val == "%}"
 		n.beforeBlockTag = right != nil && right.Val == "{%"
+		if t.verbatim {
+			// neither the "-" of a neighbour nor TrimBlocks/LStripBlocks reach
+			// into a verbatim block
+			n.trimLeft, n.trimRight, n.afterBlockTag, n.beforeBlockTag = false, false, false, false
+		}
 		p.Consume() // consume HTML element
 		return n, nil
 	case TokenSymbol:
